@@ -213,6 +213,15 @@ def check_config(desc, exhaustive_upto):
         return [], st
     st['resource_names'] = len(whole)
     v = []
+    # the whole worker is 1024/1024ths of itself: bill every resource object with that fraction directly, independently of
+    # the fraction arithmetic inside quantified_resources (which the job side shares with the `whole` computed above)
+    ref = _qmap([q for q in (r.to_quantified_resource(cpu_in_mcpu=cores * 1000, memory_in_bytes=cfg.instance_memory(),
+                                                      worker_fraction_in_1024ths=1024, external_storage_in_gib=0)
+                             for r in cfg.resources) if q is not None])
+    if ref != whole:
+        diff = {n: (whole.get(n), ref.get(n)) for n in set(whole) | set(ref) if whole.get(n) != ref.get(n)}
+        v.append(('whole-worker-not-billed-as-1024-1024ths', f'{label}: the whole worker ({cores} cores) is billed (billed, whole): {diff}',
+                  {'mcpu': cores * 1000}))
     sizes = job_sizes(desc, cfg)
     per = {}
     for mcpu, mem in sizes:
